@@ -51,7 +51,7 @@ def main() -> None:
                   "design-round text, kept because they explain the approach, with section 4 (C15, C16, C17, C19), 6 and 8\n"
                   "brought up to date. Everything below marked *probed*")
     insert = T("asbuilt_head.md") + T("asbuilt_mid.md") + "\n### 0A.8 Seeded changes and the checks that catch them\n\n" \
-        "One hundred and twenty changes (two per property in rounds 1 and 2, two for twelve properties in round 3, two for the other eight in round 4) were written by sub-agents that saw only the property text and a scratch\n" \
+        "One hundred and twenty-six changes (two per property in rounds 1 and 2, two for twelve properties in round 3, two for the other eight in round 4, one for six properties in round 5) were written by sub-agents that saw only the property text and a scratch\n" \
         "worktree, later rounds were asked for mechanisms different from the earlier ones. Each was re-verified here in a\n" \
         "fresh worktree (demo passes on the clean tree, fails on the mutated one, the full suite still passes) before\n" \
         "being kept under `seeded/`. Each was then applied to /repo, the relevant quick items were run, and the patch\n" \
